@@ -50,10 +50,11 @@ func (x *c17Run) index(v any) tree.IndexedJsonDocument {
 }
 
 type c17Op struct {
-	kind string
-	path string
-	val  any
-	cls  string // path class, part of the violation key
+	elems []jElem // set when the path consists of member/index legs only
+	kind  string
+	path  string
+	val   any
+	cls   string // path class, part of the violation key
 }
 
 var c17Kinds = []string{"Lookup", "Insert", "Set", "Replace", "Remove", "ArrayInsert", "ArrayAppend"}
@@ -127,6 +128,13 @@ func (x *c17Run) genOp(r *rand.Rand, g *jgen, doc any) c17Op {
 	}
 	op.path = jPath(elems)
 	op.cls = cls
+	plain := true
+	for _, e := range elems {
+		plain = plain && e.raw == ""
+	}
+	if plain {
+		op.elems = elems
+	}
 	if op.kind != "Lookup" && op.kind != "Remove" {
 		switch r.Intn(6) {
 		case 0:
@@ -330,6 +338,10 @@ func c17Ops(c *rig.Ctx) {
 					c.Note(fmt.Sprintf("reference (go-mysql-server JSONDocument) panicked: %s on %s(%s) doc=%s", refRes.panicked, op.kind, op.path, clipS(string(jMarshal(ref)))))
 				}
 				bad = true
+			case op.kind == "Lookup" && refRes.err == nil && c17LookupModelDisagrees(op, ref, refRes):
+				// the reference's lookup parser (jsonpath library) mis-reads some quoted legs (brackets, dots, quotes inside
+				// the quotes): when it disagrees with a plain walk of the document there is nothing reliable to compare against
+				c.Count("c17.reference_lookup_disagrees_with_plain_walk", 1)
 			case refRes.err != nil && stRes.err == nil:
 				// the reference's own path parser rejects some valid quoted legs; nothing to compare against
 				c.Count("c17.reference_error_only", 1)
@@ -398,6 +410,24 @@ func c17Ops(c *rig.Ctx) {
 	c.Require(indexed > 0, "no operation was served by the indexed implementation (everything fell back: reference compared with itself)")
 	c.Require(indexed >= (indexed+fellBack)/4, "fewer than a quarter of the index-capable operations were served by the indexed implementation")
 	c.Require(multiChunkOps > 0, "no indexed operation ran on a multi-chunk document")
+}
+
+// c17LookupModelDisagrees: for path classes whose meaning is a plain walk (no auto-wrapping, no last, no wildcard),
+// does the reference's answer differ from walking the document?
+func c17LookupModelDisagrees(op c17Op, doc any, ref c17Result) bool {
+	switch op.cls {
+	case "existing", "child-key", "deep-missing", "sibling-prefix":
+	default:
+		return false
+	}
+	if op.elems == nil && op.path != "$" {
+		return false
+	}
+	want, ok := jGet(doc, op.elems)
+	if ok == ref.isNil {
+		return true
+	}
+	return ok && !jEqual(want, ref.doc)
 }
 
 func c17Show(r c17Result) string {
